@@ -44,6 +44,8 @@ def make_input(ctx, spec, form):
     from OpenPinch.lib.schema import StreamSchema, TargetInput, UtilitySchema
     d = {"streams": [dict(s) for s in spec["streams"]], "utilities": [dict(u) for u in spec.get("utilities", [])],
          "options": dict(spec.get("options") or {})}
+    if spec.get("zone_tree") is not None:
+        d["zone_tree"] = copy.deepcopy(spec["zone_tree"])
     if form == "dict":
         return d
     if ctx.mode == "concrete":
